@@ -352,4 +352,68 @@ def splice_shape(ctx, fn, prev='PREV', nxt='NEXT', rule='T28'):
                 n_seen += 1
                 ctx.ob(rule, fn.fq, 'unlink statement `%s = %s` is well-formed (the %s-neighbour\'s %s link becomes the cell\'s '
                        '%s-neighbour)' % (txt(t), txt(v), a, b, b), c == b, loc='%s:%d' % (fn.module.relpath, n.lineno))
+    # completeness: an unlink rewires both neighbours -- the forms (PREV, NEXT) and (NEXT, PREV) for the same cell
+    forms = {}
+    for n in ast.walk(fn.node):
+        pairs = []
+        if isinstance(n, ast.Assign):
+            for t in n.targets:
+                if isinstance(t, ast.Tuple) and isinstance(n.value, ast.Tuple) and len(t.elts) == len(n.value.elts):
+                    pairs += list(zip(t.elts, n.value.elts))
+                else:
+                    pairs.append((t, n.value))
+        for t, v in pairs:
+            if isinstance(t, ast.Subscript) and isinstance(t.value, ast.Subscript) and isinstance(v, ast.Subscript):
+                a, b, X, Y = txt(t.value.slice), txt(t.slice), txt(t.value.value), txt(v.value)
+                if {a, b} == {prev, nxt} and X == Y:
+                    forms.setdefault(X, {})[(a, b)] = n
+    for X, fs in forms.items():
+        both = (prev, nxt) in fs and (nxt, prev) in fs
+        any_n = list(fs.values())[0]
+        ctx.ob(rule, fn.fq, 'unlinking `%s` rewires both neighbours (its %s-neighbour\'s %s link and its %s-neighbour\'s %s link)'
+               % (X, prev, nxt, nxt, prev), both, loc='%s:%d' % (fn.module.relpath, any_n.lineno))
     return n_seen
+
+
+def sources_consumed(ctx, fn, sources, rule='T9.consume'):
+    """A bulk mutator feeds every element of every source it accepts into self: for each source parameter there is a loop
+    over it (or over a local derived from it) whose body stores into / adds to self.  (A loop that only deletes does not
+    count; a source that is handed whole to another bulk method of self counts.)"""
+    derived = {s_: {s_} for s_ in sources}
+    changed = True
+    while changed:
+        changed = False
+        for n in ast.walk(fn.node):
+            if isinstance(n, ast.Assign) and len(n.targets) == 1 and isinstance(n.targets[0], ast.Name):
+                names = {x.id for x in ast.walk(n.value) if isinstance(x, ast.Name)}
+                for s_ in sources:
+                    if names & derived[s_] and n.targets[0].id not in derived[s_]:
+                        derived[s_].add(n.targets[0].id)
+                        changed = True
+    aliases = {n.targets[0].id for n in ast.walk(fn.node) if isinstance(n, ast.Assign) and len(n.targets) == 1 and
+               isinstance(n.targets[0], ast.Name) and isinstance(n.value, ast.Attribute) and txt(n.value.value) in ('self', 'super()')
+               and n.value.attr in ('add', '__setitem__', 'addlist', 'update', 'update_extend')}
+
+    def writes_self(body):
+        for st in body:
+            for x in ast.walk(st):
+                if isinstance(x, ast.Subscript) and isinstance(x.ctx, ast.Store) and txt(x.value) == 'self':
+                    return True
+                if isinstance(x, ast.Call):
+                    f = x.func
+                    if isinstance(f, ast.Attribute) and txt(f.value) == 'self' and f.attr in ('add', 'addlist', '__setitem__', 'update', 'update_extend',
+                                                                                             'setdefault'):
+                        return True
+                    if isinstance(f, ast.Name) and f.id in aliases:
+                        return True
+        return False
+    for s_ in sources:
+        loops = [n for n in ast.walk(fn.node) if isinstance(n, (ast.For, ast.comprehension)) and
+                 {x.id for x in ast.walk(n.iter) if isinstance(x, ast.Name)} & derived[s_]]
+        fed = any(isinstance(n, ast.For) and writes_self(n.body) for n in loops)
+        whole = any(isinstance(c, ast.Call) and isinstance(c.func, ast.Attribute) and txt(c.func.value) in ('self', 'super()') and
+                    c.func.attr in ('update', 'update_extend', 'addlist', '__init__') and
+                    any(isinstance(a, ast.Name) and a.id in derived[s_] for a in list(c.args) + [k.value for k in c.keywords])
+                    for c in ast.walk(fn.node))
+        ctx.ob(rule, fn.fq, 'every element of the source `%s` is fed into self (a loop over it stores/adds, or it is handed to another '
+               'bulk method)' % s_, fed or whole, loc=fn.loc, detail='loops over it: %d' % len(loops))
